@@ -91,6 +91,41 @@ def make_case(args):
                 rec["exc"] = f"{type(e).__name__}: {str(e)[:200]}"
                 rec["exc_type"] = type(e).__name__
             out.append(rec)
+    # an ordinary spectrum (one interior peak, energy everywhere) — alone, with a time axis of ONE record and with two records:
+    # every operation returns finite numbers throughout (NaN is reserved for the documented degenerate cases)
+    nfo, ndo = rng.choice([6, 9]), rng.choice([8, 12])
+    fo, _ = gen.gen_freq(rng, nfo, kind="log")
+    do, _ = gen.gen_dirs(rng, ndo, order="sorted")
+    ipk, jpk = rng.randrange(2, nfo - 2), rng.randrange(ndo)
+    Eo = np.array([[1.0 / (1 + (i - ipk) ** 2) / (1 + min(abs(j - jpk), ndo - abs(j - jpk))) + 0.03125 for j in range(ndo)] for i in range(nfo)])
+    for ntime in (0, 1, 2):
+        if ntime:
+            tv = np.array(["2020-01-01T00", "2020-01-01T03"][:ntime], dtype="datetime64[ns]")
+            dao = gen.make_da(fo, do, np.array([Eo * (1 + 0.5 * k) for k in range(ntime)]), extra=[("time", tv)])
+        else:
+            dao = gen.make_da(fo, do, Eo)
+        leado = [d for d in dao.dims if d not in ("freq", "dir")]
+        shpo = tuple(dao.sizes[d] for d in leado)
+        auxo = {k: xr.DataArray(np.full(shpo, v), dims=leado, coords={d: dao[d] for d in leado}) for k, v in
+                (("wspd", 10.0), ("wdir", 45.0), ("dpt", 40.0))}
+        for op in sorted(C):
+            rec = dict(icase=icase, op=op, kind=f"ordinary:time{ntime}", nf=nfo, nd=ndo, fk="log", extra=ntime, freq=fo.tolist(), dirs=do.tolist(),
+                       E=Eo.tolist())
+            try:
+                can = opcat.canon(C[op](dao, auxo))
+                bad = [c["name"] for c in can if np.isnan(c["vals"]).any()]
+                if bad:
+                    rec["nan"] = bad
+                    if op == "gw":
+                        m0 = (dao.spec.hs() / 4) ** 2
+                        rad = m0 / dao.spec.tm02() ** 2 - m0 ** 2 / dao.spec.tm01() ** 2
+                        rec["gw_pred"] = bool(np.array_equal(np.isnan(np.atleast_1d(can[0]["vals"])).ravel(), (np.atleast_1d(rad.values) < 0).ravel()))
+                else:
+                    rec["ok"] = True
+            except Exception as e:
+                rec["exc"] = f"{type(e).__name__}: {str(e)[:200]}"
+                rec["exc_type"] = type(e).__name__
+            out.append(rec)
     # contract of the native entry point: specpart_wrap.c takes the data pointer and reads nk*nth floats forward, whatever
     # the strides — so every array handed to it must be a C-contiguous float32 block of exactly that size, also when the
     # caller's spectrum is a float32 view with negative / non-unit strides or transposed storage
@@ -228,7 +263,10 @@ def run_check():
             def cls(x):
                 return "1" if x == 1 else "2" if x == 2 else "3+"
             ck.case((r["op"], r["kind"], cls(r["nf"]), cls(r["nd"])), True, sample={k: r[k] for k in ("op", "kind", "nf", "nd")})
-            if r.get("contract"):
+            if r.get("nan"):
+                ck.fail(r["op"], f"NaN in {r['nan']} for an ordinary spectrum (one interior peak, energy in every bin; {r['kind']})", r,
+                        "gw_unnormalised" if r.get("gw_pred") else "nan_on_ordinary_spectrum")
+            elif r.get("contract"):
                 ck.fail(r["op"], f"the native routine was handed an array that is not a C-contiguous float32 block ({r['contract']}); the "
                                  f"wrapper ignores strides and reads nk*nth floats from the data pointer: out-of-bounds / wrong memory", r,
                         "native_input_contract")
